@@ -51,17 +51,28 @@ def rate (inp : Input) (k i : Nat) : ℚ :=
   let w := inp.invmap.getD i 0
   inp.preT.getD k 0 * qpow inp.q (inp.ene.getD w 0 - inp.eneT.getD k 0) / inp.pre.getD w 0
 
-/-- The network projected on lattice directions `α` (field `d`) and `β` (field `e`),
-    with `r = ρ_src · rate`. Out-of-range site indices make the input invalid. -/
-def network (inp : Input) (α β : Nat) : Option (List (Jump (Fin inp.n) ℚ)) :=
-  ((List.zip (List.range inp.jumps.length) inp.jumps).flatMap fun (k, cls) =>
-      cls.map fun (i, j, dx) => (k, i, j, dx)).mapM fun (k, i, j, dx) =>
+def dot (u x : List ℚ) : ℚ := ((List.zip u x).map fun p => p.1 * p.2).sum
+
+/-- all jumps of the network, tagged with their class index -/
+def flat (inp : Input) : List (Nat × Nat × Nat × List ℚ) :=
+  (List.zip (List.range inp.jumps.length) inp.jumps).flatMap fun (k, cls) =>
+      cls.map fun (i, j, dx) => (k, i, j, dx)
+
+def mkJump (inp : Input) (u v : List ℚ) : Nat × Nat × Nat × List ℚ → Option (Jump (Fin inp.n) ℚ)
+  | (k, i, j, dx) =>
     if hi : i < inp.n then
       if hj : j < inp.n then
-        some { src := ⟨i, hi⟩, dst := ⟨j, hj⟩, d := dx.getD α 0, e := dx.getD β 0,
+        some { src := ⟨i, hi⟩, dst := ⟨j, hj⟩, d := dot u dx, e := dot v dx,
                r := rho inp i * rate inp k i }
       else none
     else none
+
+/-- The network projected on directions `u` (field `d`) and `v` (field `e`) given in lattice
+    (covariant) components, with `r = ρ_src · rate`. Out-of-range site indices make the input invalid. -/
+def network (inp : Input) (u v : List ℚ) : Option (List (Jump (Fin inp.n) ℚ)) :=
+  (flat inp).mapM (mkJump inp u v)
+
+def unit (dim α : Nat) : List ℚ := (List.range dim).map fun i => if i = α then 1 else 0
 
 /-! ### exact Gauss–Jordan -/
 
@@ -135,16 +146,19 @@ def solve (n : Nat) (l : List (Jump (Fin n) ℚ)) : Option (Fin n → ℚ) :=
   let ξ := candidate n l
   if (l.map Jump.rev).isPerm l ∧ (l.all fun a => decide (0 ≤ a.r)) ∧ Stationary l ξ then some ξ else none
 
-/-- One tensor component in lattice coordinates: `D_αβ = D0_αβ − Σ_i ξ^α_i B^β_i`. -/
-def component (inp : Input) (α β : Nat) : Option ℚ := do
-  let l ← network inp α β
+/-- The bilinear transport form `u·D·v = D0(u,v) − Σ_i ξ^u_i B^v_i` for directions `u`, `v`. -/
+def form (inp : Input) (u v : List ℚ) : Option ℚ := do
+  let l ← network inp u v
   let ξ ← solve inp.n l
   let d0 := (l.map fun a => a.r * a.d * a.e).sum / 2
   pure (d0 - ∑ i, ξ i * B (l.map Jump.swap) i)
 
+/-- One tensor component in lattice coordinates. -/
+def component (inp : Input) (α β : Nat) : Option ℚ := form inp (unit inp.dim α) (unit inp.dim β)
+
 /-- bare (uncorrelated) part `D0_αβ`, for reporting -/
 def component0 (inp : Input) (α β : Nat) : Option ℚ := do
-  let l ← network inp α β
+  let l ← network inp (unit inp.dim α) (unit inp.dim β)
   pure ((l.map fun a => a.r * a.d * a.e).sum / 2)
 
 def tensor (inp : Input) : Option (List (List ℚ)) :=
